@@ -133,6 +133,82 @@ def run(ctx):
     ok = len(uo) == 4 and all(d and (d.endswith("String::new") or d.endswith("Vec::<T>::new")) for d in dfl)
     ctx.ob("F-TRUTH-OPT", "parser defaults: absent stamp -> \"\", absent truth -> []", ok, "%s" % dfl)
     # join_lest_multiple_separators drops empty items, so an empty stamp/truth leaves no trace (dep summary)
+    # ---- arity agreement between the lexical formatter and parser
+    ctx.rule("A-ARITY-LEX", "smallest component count the lexical formatter can write vs the lexical parser can read, for compounds and sets: the "
+             "template writes `left connecter separator space` unconditionally before the (possibly empty) component list and a set as "
+             "`left components right`; in segment_compound every path from a skipped separator to the loop exit passes through segment_term, "
+             "and in segment_term_set a segment_term call dominates every Ok return.  The lexical Term variants have public fields, so a "
+             "value with zero components exists.  The statement says `any number of components`")
+    Em = emit.Emit(f)
+    TPL = "conversion::string::common::common_narsese_templates::"
+    try:
+        sk_c = Em.fn(TPL + "template_compound", ["@sink"] + ["$%d" % i for i in range(1, 7)])
+        sk_s = Em.fn(TPL + "template_compound_set", ["@sink"] + ["$%d" % i for i in range(1, 6)])
+    except hir.Unrecognised as u:
+        sk_c = sk_s = None
+        ctx.unrecognised("A-ARITY-LEX", "templates", u.what)
+    if sk_c is not None:
+        # index of the join over the components, and whether the separator ($4) is written before it outside any guard
+        ji = [i for i, x in enumerate(sk_c) if isinstance(x, tuple) and x[0] == "join"]
+        sep_before = bool(ji) and "$4" in [x for x in sk_c[:ji[0]] if isinstance(x, str)]
+        guarded = any(isinstance(x, tuple) and x[0] in ("unless", "if", "ifnot") for x in sk_c)
+        sc = f.mir_fn("segment_compound", module=LEXP)
+        ctx.fn(sc)
+        g = mir.cfg(sc)
+        terms = {bi for bi, t in g.calls("segment_term")}
+        sep_skip, exit_blocks = set(), set()
+        for bi, t in g.calls("starts_with_full"):
+            br = g.bool_branch(bi)
+            if br is None:
+                continue
+            what = g.path_s(t["args"][1]) if len(t["args"]) > 1 else ""
+            if "separator" in what:
+                sep_skip.add(br[0])
+            else:
+                exit_blocks.add(br[0])
+        if not sep_skip or not exit_blocks or not terms:
+            ctx.unrecognised("A-ARITY-LEX", "segment_compound", "separator test / closing-bracket test / segment_term call not found (%s, %s, %s)" % (sep_skip, exit_blocks, terms))
+        else:
+            need_term = all(not (exit_blocks & g.reachable_from(s_, avoid=tuple(terms))) for s_ in sep_skip)
+            ctx.sample({"rule": "A-ARITY-LEX", "template_compound": [str(x) for x in sk_c], "separator_written_before_components": sep_before,
+                        "parser_requires_term_after_separator": need_term})
+            ctx.ob("A-ARITY-LEX", "lexical compound with zero components: written `left connecter separator right`, the parser requires a term after a separator",
+                   not (sep_before and not guarded and need_term),
+                   "Term::new_compound(c, vec![]) is printed as e.g. `(&&, )` and parse of that string is an error")
+    if sk_s is not None:
+        guarded = any(isinstance(x, tuple) and x[0] in ("unless", "if", "ifnot") for x in sk_s)
+        ss = f.mir_fn("segment_term_set", module=LEXP)
+        ctx.fn(ss)
+        g = mir.cfg(ss)
+        terms = [bi for bi, t in g.calls("segment_term")]
+        oks = [bi for bi in sorted(g.reach) for st_ in ss["blocks"][bi]["stmts"]
+               if st_["k"] == "Assign" and st_["rv"]["k"] == "Aggregate" and st_["rv"].get("agg") == "Adt" and st_["rv"]["adt"].endswith("result::Result") and st_["rv"]["variant"] == "Ok"]
+        if not terms or not oks:
+            ctx.unrecognised("A-ARITY-LEX", "segment_term_set", "segment_term call / Ok return not found")
+        else:
+            first_required = all(any(g.dominates(tb, ob) for tb in terms) for ob in oks)
+            ctx.sample({"rule": "A-ARITY-LEX", "template_compound_set": [str(x) for x in sk_s], "parser_requires_first_element": first_required})
+            ctx.ob("A-ARITY-LEX", "lexical set with zero components: written `left right`, the parser requires a first element",
+                   not (not guarded and first_required), "Term::new_set(l, vec![], r) is printed as e.g. `{}` and parse of that string is an error")
+    # the component loops end exactly when the closing bracket follows: any further condition on the exit makes some arity unreadable
+    import guards as G
+    for fn_name in ("segment_compound", "segment_term_set"):
+        b = f.mir_fn(fn_name, module=LEXP)
+        g = mir.cfg(b)
+        sym = G.Sym(b)
+        exits = []
+        for bi, t in g.calls("starts_with_full"):
+            br = g.bool_branch(bi)
+            what = g.path_s(t["args"][1]) if len(t["args"]) > 1 else ""
+            if br is not None and "separator" not in what:
+                exits.append(br[0])
+        if len(exits) != 1:
+            ctx.unrecognised("A-ARITY-LEX", fn_name, "expected one closing-bracket test, found %d" % len(exits))
+            continue
+        gs = ["%s = %s" % x for x in sym.live_guards(exits[0])]
+        extra = [x for x in gs if not (x.startswith("discr(branch(") and x.endswith(" = 0")) and not (x.startswith("starts_with_full(") and x.endswith(" = true"))]
+        ctx.ob("A-ARITY-LEX", "%s: the component loop ends exactly when the closing bracket follows" % fn_name, not extra,
+               "additional conditions on the loop exit: %s" % extra, "%s:%s" % (b["span"]["file"], b["span"]["line"]))
     ctx.undecided = ["structural equality of the re-parsed tree for all vocabulary-consistent values (nesting- and value-dependent)"]
     ctx.assumptions = ["nar_dev_utils join helpers and dictionaries behave as summarised (source hash asserted)"]
     ctx.trusted = ["rustc HIR/MIR", "mirfacts driver", "pinned nar_dev_utils 0.42.3 source", "python rule layer"]
